@@ -1518,7 +1518,11 @@ impl OneSideHashJoiner {
     ) -> Result<()> {
         // Merge the incoming batch with the existing input buffer:
         self.input_buffer = concat_batches(&batch.schema(), [&self.input_buffer, batch])?;
-        // Resize the hashes buffer to the number of rows in the incoming batch:
+        // Reset the hashes buffer to the number of rows in the incoming batch.
+        // It must be cleared first: `create_hashes` leaves the slot of a NULL key
+        // untouched, so a stale value from an earlier batch would become the hash
+        // under which a NULL key is inserted while probes look it up under 0:
+        self.hashes_buffer.clear();
         self.hashes_buffer.resize(batch.num_rows(), 0);
         // Get allocation_info before adding the item
         // Update the hashmap with the join key values and hashes of the incoming batch:
